@@ -86,6 +86,14 @@ Proof. intros m Hm. exact I. Qed.
 Lemma x_oof_bind {A B} s0 (f : A -> M B) Q : hx s0 (bind out_of_fuel f) Q.
 Proof. intros m Hm. exact I. Qed.
 
+Lemma x_conj {A} s0 (x : M A) (Q1 Q2 : A -> nstate -> tr_t -> Prop) :
+  hx s0 x Q1 -> hx s0 x Q2 -> hx s0 x (fun a s n => Q1 a s n /\ Q2 a s n).
+Proof.
+  intros H1 H2 m Hm. specialize (H1 m Hm). specialize (H2 m Hm). destruct (x m) as [[a m']| | | |]; auto.
+  destruct H1 as (n1 & T1 & S1 & Q1'). destruct H2 as (n2 & T2 & S2 & Q2').
+  assert (n1 = n2) by (rewrite T1 in T2; apply app_inv_head in T2; exact T2). subst n2. exists n1. auto.
+Qed.
+
 (* checked table access: a Panic is accepted by hx, so no side condition; the successful read is exposed *)
 Lemma x_tget {T B} s0 (l : list T) i (f : T -> M B) Q :
   (forall x, 0 <= i -> nth_chk l (Z.to_nat i) = Some x -> hx s0 (f x) Q) -> hx s0 (bind (tget l i) f) Q.
